@@ -577,6 +577,20 @@ func Build(spec Spec) *Built {
 				fex.Decls = append(fex.Decls, decls...)
 			}
 		}
+		if spec.Hostile {
+			// files that END in a one-line top-level declaration carrying a violation
+			for _, f := range files {
+				inf := infos[r.Intn(len(infos))]
+				if inf.t.Kind != "struct" {
+					inf = infos[0]
+				}
+				n := b.tstmt("var "+b.d("gl")+" %T", useT(UVarZero, inf.t, ""), refT(inf.t, SubVar))
+				n.PkgLevel = true
+				n.Pin = f.Name
+				n.Pre[0].Feature = "pkglevel-var"
+				f.Decls = append(f.Decls, n)
+			}
+		}
 		for _, f := range u.Files {
 			if len(f.Decls) == 0 {
 				f.Decls = append(f.Decls, &Node{Pre: []*Line{b.line("var " + b.d("pad") + " = 0")}})
